@@ -308,6 +308,22 @@ func endsWithDot(v ssa.Value, d int) bool {
 			}
 		}
 		return len(x.Edges) > 0
+	case *ssa.Call:
+		// a helper that builds the prefix (journalFilePrefix()): all of its returns
+		h := x.Call.StaticCallee()
+		if h == nil || h.Blocks == nil {
+			return false
+		}
+		ok, n := true, 0
+		an.Instrs(h, func(in ssa.Instruction) {
+			if r, isR := in.(*ssa.Return); isR && len(r.Results) == 1 {
+				n++
+				if !endsWithDot(r.Results[0], d+1) {
+					ok = false
+				}
+			}
+		})
+		return ok && n > 0
 	}
 	return false
 }
@@ -3131,6 +3147,19 @@ func ruleP9(c *an.Ctx) {
 				}
 				return "max() without a non-negative operand"
 			}
+			// a helper of the program that computes the width: all of its returns
+			if h := x.Call.StaticCallee(); h != nil && h.Blocks != nil && inScope[h] && !isMaxCall(x) {
+				res, cnt := "", 0
+				an.Instrs(h, func(in ssa.Instruction) {
+					if r, isR := in.(*ssa.Return); isR && len(r.Results) == 1 && res == "" {
+						cnt++
+						res = nonNeg(r.Results[0], d+2)
+					}
+				})
+				if cnt > 0 {
+					return res
+				}
+			}
 			if h := x.Call.StaticCallee(); h != nil && h.Pkg != nil && h.Pkg.Pkg.Path() == "math" && h.Name() == "Max" {
 				for _, a := range x.Call.Args {
 					if k, ok := an.ConstVal(a); ok && constant.Sign(k) >= 0 {
@@ -3154,6 +3183,39 @@ func ruleP9(c *an.Ctx) {
 						(r.Op == token.LEQ || r.Op == token.LSS) && r.X == x.Y && r.Y == x.X
 				}); g {
 					return ""
+				}
+				// len(a) - k under a guard that a has at least k elements (two len() calls of one place)
+				if k, isK := an.ConstVal(x.Y); isK && k.Kind() == constant.Int {
+					if args, isLen := an.IsBuiltinCall(x.X, "len"); isLen {
+						kv, _ := constant.Int64Val(k)
+						place := an.Path(args[0])
+						if g, _ := an.GuardedBy(x, func(r an.Rel) bool {
+							rr := r
+							if _, c1 := an.ConstVal(rr.X); c1 {
+								rr = rr.Flip()
+							}
+							a2, isLen2 := an.IsBuiltinCall(rr.X, "len")
+							if !isLen2 || an.Path(a2[0]) != place {
+								return false
+							}
+							c2, ok := an.ConstVal(rr.Y)
+							if !ok || c2.Kind() != constant.Int {
+								return false
+							}
+							cv, _ := constant.Int64Val(c2)
+							switch rr.Op {
+							case token.GEQ:
+								return cv >= kv
+							case token.GTR:
+								return cv >= kv-1
+							case token.NEQ:
+								return cv == 0 && kv == 1
+							}
+							return false
+						}); g {
+							return ""
+						}
+					}
 				}
 				return widthOK(x.X, map[ssa.Value]bool{}, 0)
 			}
@@ -3214,6 +3276,23 @@ func ruleP9(c *an.Ctx) {
 				key += fmt.Sprintf("#%d", perFn[fn])
 			}
 			why := nonNeg(cl.Call.Args[1], 0)
+			if why != "" {
+				// the call itself sits under a test that the count is not negative (if pad := w - l; pad > 0)
+				cnt := cl.Call.Args[1]
+				if g, _ := an.GuardedBy(cl, func(r an.Rel) bool {
+					rr := r
+					if _, c1 := an.ConstVal(rr.X); c1 {
+						rr = rr.Flip()
+					}
+					k, ok := an.ConstVal(rr.Y)
+					if !ok || k.Kind() != constant.Int || rr.X != cnt {
+						return false
+					}
+					return (rr.Op == token.GTR && constant.Sign(k) >= 0) || (rr.Op == token.GEQ && constant.Sign(k) >= 0) || (rr.Op == token.GTR && k.ExactString() == "-1")
+				}); g {
+					why = ""
+				}
+			}
 			c.Check("P9", key, cl.Pos(), why == "",
 				"the count of this Repeat call can be negative, and Repeat panics on a negative count (the formatter runs on every parse, outside the parser's recover): "+why)
 		})
@@ -3635,6 +3714,7 @@ func ruleI9(c *an.Ctx) {
 		c.Info("I9", "anchor(unquoteBytes)", 0, "not found: not decided")
 		return
 	}
+	hexPhi := map[*ssa.Phi]bool{}
 	var pureHex func(v ssa.Value, d int) bool
 	pureHex = func(v ssa.Value, d int) bool {
 		if v == nil || d > 8 {
@@ -3650,6 +3730,18 @@ func ruleI9(c *an.Ctx) {
 			case token.ADD, token.SHL, token.OR, token.MUL:
 				return pureHex(x.X, d+1) && pureHex(x.Y, d+1)
 			}
+		case *ssa.Phi:
+			// an accumulator of a loop over the digits
+			if hexPhi[x] {
+				return true
+			}
+			hexPhi[x] = true
+			for _, e := range x.Edges {
+				if !pureHex(e, d+1) {
+					return false
+				}
+			}
+			return true
 		case *ssa.Call:
 			h := x.Call.StaticCallee()
 			if h == nil || h.Blocks == nil {
